@@ -1293,3 +1293,6 @@ func RetVal(ret *ssa.Return, idx int) ssa.Value {
 	}
 	return ret.Results[idx]
 }
+
+// Aliases returns the alloc and every free variable bound to it (through any number of closure levels).
+func Aliases(a *ssa.Alloc) []ssa.Value { return aliases(a) }
